@@ -216,3 +216,26 @@ _R11 = {
 for _pid, _t in _R11.items():
     _lvl, _tech, _txt = CHECKS[_pid]
     CHECKS[_pid] = (_lvl, _tech, _txt + _t)
+
+# ---- additions of round 12 / round M
+_R12 = {
+    "C01": " Round 12 (rule Y, the party that is not changed with this code): fields added to the stored / cached Response never decide (an entity of the deployed build has the zero value there).",
+    "C02": " Round 12 (Y): the stored request and blob entities keep the properties they were ever written with; the bridge keeps one hex text frame per write (C15.E borrowed).",
+    "C03": " Round 12 (Y): a blob is its inlined first megabyte followed by its parts, for writer and reader; ModifyResponse is only set under the --shim-websockets parameter.",
+    "C04": " Round 12 (Y): the backend ID is attached to list, fetch and post calls only — a fourth kind of agent call is a list poll to a stand-alone proxy that was not changed with the agent.",
+    "C06": " Round 12 (Y): only list/fetch/post exchanges; the stand-alone proxy answers an upload it could not read to the end with 5xx; client.Timeout = *proxyTimeout dominates the polling loop.",
+    "C07": " Round 12 (Y): no branch of cachedCookieJar depends on what the session ID looks like; request IDs keep their per-process random shape (C01.G rule shared).",
+    "C09": " Round 12 (Y): the gob-cached Request keeps the names and types of its fields; the stored request keeps its properties.",
+    "C11": " Round 12 (Y): fields added to sessionMessage never decide; every iteration over a posted batch passes SendClientMessage; the session ID is decoded from the body only.",
+    "C12": " Round 12 (Y): websockets.Proxy is mounted under --shim-path alone. Reply helpers: every status a helper can be handed is an allowed constant.",
+    "C13": " Round 12 (Y): the shim is given hostProxy's own host parameter.",
+    "C14": " Round 12 (Y): no string of package banner mentions a referrer policy. Truth table extended: a top-level navigation without Referer is not framed; lookups in read-only package tables are evaluated.",
+    "C15": " Round 12 (Y): no dialer/upgrader option offers compression or a subprotocol; the h2c transport is installed from the true edge of `if *forceHTTP2`.",
+    "C17": " Round 12 (Y): fields added to the Backend record never decide.",
+    "C18": " Round 12 (Y): no guard of the proxyHandler call asserts an equality on the service name.",
+    "C19": " Round 12 (Y): blob layout; the agent endpoints let only the two ID headers decide; fields added to Request/Response never decide.",
+    "C20": " Round 12 (Y): only list/fetch/post exchanges (a shutdown notice is a list poll to an older proxy).",
+}
+for _pid, _t in _R12.items():
+    _lvl, _tech, _txt = CHECKS[_pid]
+    CHECKS[_pid] = (_lvl, _tech, _txt + _t)
